@@ -28,16 +28,20 @@ def gen(ctx, n, seed, par):
     return [json.loads(x) for x in open(out)]
 
 
-def rerun(ctx, rec):
+def rerun(ctx, rec, before=()):
     vh = ctx.build(PKG)
     d = ctx.sub("replay")
     i, o = os.path.join(d, "in.ndjson"), os.path.join(d, "out.ndjson")
-    inp = {k: rec[k] for k in ("ev", "id", "mode", "file", "sel", "ports")}
-    inp["prior"] = rec.get("prior", [])
-    inp.update(tracks=[], sends=[], rerr="", err="", panic="", timeout=False, dur_us=0, feat=rec.get("feat", []))
-    open(i, "w").write(json.dumps(inp) + "\n")
-    ctx.run([vh, "player-rerun", "-in", i, "-out", o], timeout=600)
-    new = json.loads(open(o).read())
+    def _inp(rec):
+        inp = {k: rec[k] for k in ("ev", "id", "mode", "file", "sel", "ports")}
+        inp["prior"] = rec.get("prior", [])
+        inp.update(tracks=[], sends=[], rerr="", err="", panic="", timeout=False, dur_us=0, feat=rec.get("feat", []))
+        return inp
+    with open(i, "w") as fh:       # the cases `before` are executed first, in the same fresh process
+        for b in list(before) + [rec]:
+            fh.write(json.dumps(_inp(b)) + "\n")
+    ctx.run([vh, "player-rerun", "-in", i, "-out", o], timeout=1800)
+    new = json.loads(open(o).read().splitlines()[-1])
     bad = ctx.validate("Trace_Player", [slim(new)], shards=1)
     info = bad[0][1] if bad else None
     if info and info.get("genbug"):
@@ -75,6 +79,7 @@ def validate(ctx, recs):
         if info.get("genbug"):
             raise Machinery("generator produced a play outside the property's domain: %s" % json.dumps(info)[:600])
         fails.append(Failure(signature(r, info), describe(r, info), {"family": "player", "record": {k: r[k] for k in ("ev", "id", "mode", "file", "sel", "ports", "prior", "feat")}}))
+        fails[-1].before = [{k: x[k] for k in ("ev", "id", "mode", "file", "sel", "ports", "prior", "feat")} for x in recs[max(0, idx - 400):idx]]
     fails.sort(key=lambda f: len(f.payload["record"]["file"]))
     return fails
 
@@ -122,10 +127,14 @@ def run(ctx):
     for need in ("tick_ge13", "total_ge13", "meta", "sysex", "duplicate_msg", "sel_subset", "ports_default_only", "ports_some_no_default", "pat_interleave", "mode_play", "twin_prefix"):
         if not feats.get(need):
             raise Machinery("generator did not produce feature %s" % need)
-    ctx.report(fails, lambda f: rerun(ctx, f.payload["record"])[0])
+
+    def confirm(f):
+        return rerun(ctx, f.payload["record"])[0]
+    confirm.in_context = lambda before, f: rerun(ctx, f.payload["record"], before)[0]
+    ctx.report(fails, confirm)
 
 
 def replay(ctx, payload):
-    ok, new, info = rerun(ctx, payload["payload"]["record"])
+    ok, new, info = rerun(ctx, payload["payload"]["record"], payload["payload"].get("context") or ())
     print(json.dumps({"info": info})[:3000])
     return ok
